@@ -82,6 +82,29 @@ theorem c07_values_fixed (s : UInt16) (ops : List Op) :
 example : nextResults [.next, .roc, .next, .next] ((SeqState.newFixed 65535).run [.next, .roc, .next, .next])
     = [65535, 0, 1] := by decide
 
+/-- skipping ahead on the abstract counter: after `k` issues the run continues from count `n + k` -/
+theorem counter_run_skip (n k : Nat) (ops : List Op) :
+    (Spec.Counter.run n (List.replicate k .next ++ ops)).drop k = Spec.Counter.run (n + k) ops := by
+  induction k generalizing n with
+  | zero => simp
+  | succ k ih =>
+    simp only [List.replicate_succ, List.cons_append, Spec.Counter.run, List.drop_succ_cons]
+    have : (Spec.Counter.step n .next).2 = n + 1 := rfl
+    rw [this, ih (n + 1)]
+    congr 1; omega
+
+/-- **long runs** (kind `c07.long`): after ANY number `k` of `NextSequenceNumber` calls — 2^32 and more,
+    i.e. 65536 and more roll-overs — the results of a further program are those of the abstract counter
+    at count `stored initial value + k`: values continue mod 2^16 and `RollOverCount` is
+    `(initial + k + …) div 2^16` (mod 2^64), with no 16- or 32-bit truncation anywhere -/
+theorem c07_long (st : Start) (k : Nat) (ops : List Op) :
+    (st.state.run (List.replicate k .next ++ ops)).drop k =
+      Spec.Counter.run (st.state.seq.toNat + k) ops := by
+  rw [c07_refines_counter, counter_run_skip]
+
+example : ((Start.fixed 0).state.run (List.replicate 65537 .next ++ [.roc, .next])).drop 65537
+    = Spec.Counter.run (65535 + 65537) [.roc, .next] := c07_long _ _ _
+
 /-- `RollOverCount·65536 + value` is the extended count: it starts at the stored initial value and
     grows by exactly one with every `NextSequenceNumber` (hence strictly increases in issue
     order) — as long as the 64-bit roll-over counter itself has not wrapped (2^80 calls). -/
